@@ -1,9 +1,14 @@
 #!/bin/sh
-# usage: tools/try_mutant.sh <seed id> <prop> [vcheck args...]   applies seeded/<id>/patch.diff to /repo, runs the check, reverts
+# usage: tools/try_mutant.sh <seed id> <prop> [vcheck args...]
+# applies seeded/<id>/patch.diff to a scratch worktree of /repo's HEAD (so concurrent background runs that copy
+# /repo are not disturbed), runs the check against it (VERIF_REPO), removes the worktree.
 id=$1; prop=$2; shift 2
-git -C /repo apply /verif/seeded/$id/patch.diff || exit 3
-VERIF_NO_EVIDENCE=1 /verif/vcheck $prop "$@" > /tmp/mut_$id.log 2>&1
+wt=/tmp/mut/work_$id
+git -C /repo worktree remove --force $wt 2>/dev/null
+git -C /repo worktree add --detach $wt HEAD -q || exit 3
+git -C $wt apply /verif/seeded/$id/patch.diff || { echo "patch does not apply on HEAD"; git -C /repo worktree remove --force $wt; exit 3; }
+VERIF_REPO=$wt /verif/vcheck $prop "$@" > /tmp/mut_$id.log 2>&1
 rc=$?
-git -C /repo checkout -- .
-echo "$id on $prop: exit=$rc"
-grep -v "^warning" /tmp/mut_$id.log | grep "VIOLATION\|KNOWN\|FAIL\|violation\|failed check\|INCONCL" | cut -c1-260 | head -12
+git -C /repo worktree remove --force $wt
+echo "$id on $prop $*: exit=$rc"
+grep -a -v "^warning" /tmp/mut_$id.log | grep -a "VIOLATION\|KNOWN\|FAIL \|violation\|failed check\|INCONCL" | cut -c1-260 | head -12
